@@ -272,24 +272,44 @@ type opRef struct {
 
 func pendOps(g *G) []opRef {
 	p := g.pend
+	if p.ops != nil {
+		return p.ops
+	}
 	switch p.kind {
 	case PSend:
-		return []opRef{{g, -1, true, p.ch, p.val}}
+		p.ops = []opRef{{g, -1, true, p.ch, p.val}}
 	case PRecv:
-		return []opRef{{g, -1, false, p.ch, nil}}
+		p.ops = []opRef{{g, -1, false, p.ch, nil}}
 	case PSelect:
 		out := make([]opRef, 0, len(p.cases))
 		for i, c := range p.cases {
 			out = append(out, opRef{g, i, c.send, c.ch, c.val})
 		}
-		return out
+		p.ops = out
 	}
-	return nil
+	return p.ops
 }
 
 func (in *Interp) enabled() []Trans {
 	var ts []Trans
 	var quiescers []*G
+	// index of receivers waiting on unbuffered channels (kept on the channel, epoch-stamped)
+	in.epoch++
+	for _, g := range in.st.gs {
+		if g.status != GPending {
+			continue
+		}
+		for _, op := range pendOps(g) {
+			if op.ch == nil || op.ch.Cap != 0 || op.send {
+				continue
+			}
+			if op.ch.wEpoch != in.epoch {
+				op.ch.wEpoch = in.epoch
+				op.ch.recvW = op.ch.recvW[:0]
+			}
+			op.ch.recvW = append(op.ch.recvW, op)
+		}
+	}
 	for _, g := range in.st.gs {
 		if g.status != GPending {
 			continue
@@ -315,7 +335,6 @@ func (in *Interp) enabled() []Trans {
 			continue
 		}
 		direct := false
-		partner := false
 		for _, op := range pendOps(g) {
 			if op.ch == nil {
 				continue
@@ -329,15 +348,12 @@ func (in *Interp) enabled() []Trans {
 					ts = append(ts, Trans{kind: TSendBuf, g: g, ci: op.ci, ch: op.ch})
 					direct = true
 				case op.ch.Cap == 0:
-					for _, g2 := range in.st.gs {
-						if g2 == g || g2.status != GPending {
-							continue
-						}
-						for _, op2 := range pendOps(g2) {
-							if !op2.send && op2.ch == op.ch {
-								ts = append(ts, Trans{kind: TRendezvous, g: g, ci: op.ci, g2: g2, ci2: op2.ci, ch: op.ch})
-								partner = true
-							}
+					if op.ch.wEpoch != in.epoch {
+						break
+					}
+					for _, op2 := range op.ch.recvW {
+						if op2.g != g {
+							ts = append(ts, Trans{kind: TRendezvous, g: g, ci: op.ci, g2: op2.g, ci2: op2.ci, ch: op.ch})
 						}
 					}
 				}
@@ -349,21 +365,9 @@ func (in *Interp) enabled() []Trans {
 				case op.ch.Closed:
 					ts = append(ts, Trans{kind: TRecvClosed, g: g, ci: op.ci, ch: op.ch})
 					direct = true
-				case op.ch.Cap == 0:
-					for _, g2 := range in.st.gs {
-						if g2 == g || g2.status != GPending {
-							continue
-						}
-						for _, op2 := range pendOps(g2) {
-							if op2.send && op2.ch == op.ch {
-								partner = true
-							}
-						}
-					}
 				}
 			}
 		}
-		_ = partner
 		if g.pend.kind == PSelect && g.pend.hasDefault && !direct {
 			// default is taken when no case is ready; a rendez-vous partner that is
 			// "ready" only because local steps run first may equally be late
